@@ -963,10 +963,7 @@ func (in *Interp) eval(fr *frame, e ast.Expr, st *State) *Term {
 	case *ast.CompositeLit:
 		return in.evalComposite(fr, e, st)
 	case *ast.FuncLit:
-		in.nclos++
-		id := fmt.Sprintf("c%d", in.nclos)
-		in.closures[id] = &closureVal{lit: e, fr: fr}
-		return &Term{Op: "closure", S: id}
+		return in.closureTerm(fr, e, st)
 	case *ast.TypeAssertExpr:
 		return &Term{Op: "assert", S: typeName(fr.info.TypeOf(e.Type)), Args: []*Term{in.eval(fr, e.X, st)}}
 	}
@@ -1358,7 +1355,7 @@ func (in *Interp) callTree(fr *frame, call *ast.CallExpr, st *State) *Tree {
 	fv := in.eval(fr, fun, st)
 	evalArgs()
 	if fv.Op == "closure" {
-		cl := in.closures[fv.S]
+		cl := fv.Aux.(*closureVal)
 		return in.inlineLit(cl, args, st, call.Pos())
 	}
 	sig, _ := fr.info.TypeOf(call.Fun).Underlying().(*types.Signature)
@@ -1593,6 +1590,20 @@ func (in *Interp) libcall(fr *frame, name string, f *types.Func, call *ast.CallE
 		v := &Term{Op: "lib", S: name, Args: all}
 		return leafTree(st, flowFall, in.splitResults(v, sig)...)
 	}
+	if pk == "container/list" {
+		// a mutable library object: the call is recorded as an effect and its
+		// results are uninterpreted functions of the call
+		all := args
+		if recv != nil {
+			all = append([]*Term{recv}, args...)
+		}
+		v := &Term{Op: "lib", S: name, Args: all}
+		ns := st.clone()
+		if sig.Results().Len() == 0 || strings.Contains(name, "Push") || strings.Contains(name, "Remove") || strings.Contains(name, "Init") || strings.Contains(name, "Move") || strings.Contains(name, "Insert") {
+			ns.effects = append(ns.effects, &Term{Op: "libfx", S: name, Args: all})
+		}
+		return leafTree(ns, flowFall, in.splitResults(v, sig)...)
+	}
 	in.fail(call.Pos(), "call to %s is not modelled", name)
 	return nil
 }
@@ -1608,7 +1619,7 @@ func (in *Interp) deleteFunc(fr *frame, call *ast.CallExpr, args []*Term, st *St
 	if fn.Op != "closure" {
 		return leafTree(st, flowFall, &Term{Op: "deletefunc", Args: args})
 	}
-	cl := in.closures[fn.S]
+	cl := fn.Aux.(*closureVal)
 	// carried: the output sequence plus every captured variable assigned in the closure
 	carried := in.assignedObjs(cl.fr, cl.lit.Body, st)
 	outKey := &types.Var{}
@@ -1636,4 +1647,49 @@ func (in *Interp) deleteFunc(fr *frame, call *ast.CallExpr, args []*Term, st *St
 		}
 		return leafTree(l.St, flowFall, l.St.env[outKey])
 	})
+}
+
+// closureTerm represents a function literal by the normal form of its body
+// (parameters as bound leaves carg:k, captured variables by their value at
+// creation), so that two closures are equal when their bodies are.
+func (in *Interp) closureTerm(fr *frame, e *ast.FuncLit, st *State) *Term {
+	cl := &closureVal{lit: e, fr: fr}
+	in.nclos++
+	if in.depth > 6 {
+		return &Term{Op: "closure", S: fmt.Sprintf("opaque%d", in.nclos), Aux: cl}
+	}
+	var args []*Term
+	k := 0
+	for _, f := range e.Type.Params.List {
+		n := len(f.Names)
+		if n == 0 {
+			n = 1
+		}
+		for i := 0; i < n; i++ {
+			args = append(args, leaf("carg", fmt.Sprintf("%d.%d", in.depth, k)))
+			k++
+		}
+	}
+	var body *Term
+	func() {
+		defer func() {
+			if e := recover(); e != nil {
+				if _, ok := e.(symErr); ok {
+					return
+				}
+				panic(e)
+			}
+		}()
+		base := st.clone()
+		base.heap = map[string]*Term{}
+		base.heapLoc = map[string]*Term{}
+		base.effects = nil
+		t := in.inlineLit(cl, args, base, e.Pos())
+		lfr := &frame{pkg: fr.pkg, info: fr.info, name: fr.name + ".func"}
+		body = in.treeTerm(lfr, t)
+	}()
+	if body == nil {
+		return &Term{Op: "closure", S: fmt.Sprintf("opaque%d", in.nclos), Aux: cl}
+	}
+	return &Term{Op: "closure", Args: []*Term{body}, Aux: cl}
 }
